@@ -1,0 +1,442 @@
+//! API-compatible stand-ins for `std::sync::{Mutex, RwLock}` and the integer atomics that delegate to
+//! `std` (poisoning, guard scopes and memory behaviour are exactly `std`'s) and tell an installable
+//! hook about every acquisition, release and atomic access of threads that opted in.
+//! With no hook installed, or on a thread that did not opt in, they are pass-through.
+use std::cell::Cell;
+use std::fmt;
+use std::ops::{Deref, DerefMut};
+use std::panic::Location;
+use std::sync::atomic::{AtomicBool, Ordering};
+use std::sync::{Arc, LockResult, PoisonError, TryLockError, TryLockResult};
+
+#[derive(Debug, Clone, Copy, PartialEq, Eq)]
+pub enum Op {
+    Lock,
+    TryLock,
+    Read,
+    TryRead,
+    Write,
+    TryWrite,
+    /// a mutex guard / write guard / read guard was dropped
+    Unlock,
+    UnlockRead,
+    AtomicLoad,
+    AtomicStore,
+    AtomicRmw,
+}
+
+#[derive(Debug, Clone, Copy)]
+pub struct Event {
+    pub op: Op,
+    /// address of the lock / atomic (identity within one execution)
+    pub obj: usize,
+    /// where the lock was constructed (`static ref` line for lazy statics, field initialiser otherwise);
+    /// atomics carry no site
+    pub site: Option<&'static Location<'static>>,
+}
+
+pub trait Hook: Send + Sync {
+    /// called before the operation is attempted; may block the calling thread (scheduling point)
+    fn before(&self, ev: &Event);
+    /// called after an acquisition attempt returned (`ok` = acquired) and after a release
+    fn after(&self, ev: &Event, ok: bool);
+}
+
+static ENABLED: AtomicBool = AtomicBool::new(false);
+static HOOK: std::sync::RwLock<Option<Arc<dyn Hook>>> = std::sync::RwLock::new(None);
+
+thread_local! {
+    static ACTIVE: Cell<bool> = Cell::new(false);
+}
+
+pub fn install(h: Arc<dyn Hook>) {
+    *HOOK.write().unwrap() = Some(h);
+    ENABLED.store(true, Ordering::SeqCst);
+}
+
+pub fn uninstall() {
+    ENABLED.store(false, Ordering::SeqCst);
+    *HOOK.write().unwrap() = None;
+}
+
+/// The calling thread's operations are reported from now on (or no longer).
+pub fn set_thread_active(on: bool) {
+    ACTIVE.with(|a| a.set(on));
+}
+
+#[inline]
+fn hook() -> Option<Arc<dyn Hook>> {
+    if !ENABLED.load(Ordering::Relaxed) {
+        return None;
+    }
+    if !ACTIVE.try_with(|a| a.get()).unwrap_or(false) {
+        return None;
+    }
+    HOOK.read().ok().and_then(|h| h.clone())
+}
+
+#[inline]
+fn before(op: Op, obj: usize, site: Option<&'static Location<'static>>) -> Option<Arc<dyn Hook>> {
+    let h = hook()?;
+    h.before(&Event { op, obj, site });
+    Some(h)
+}
+
+/// An explicit scheduling point for harness code (e.g. a virtual clock step).
+pub fn yield_point(tag: usize) {
+    if let Some(h) = before(Op::AtomicRmw, tag, None) {
+        h.after(&Event { op: Op::AtomicRmw, obj: tag, site: None }, true);
+    }
+}
+
+// ------------------------------------------------------------------------------------- Mutex
+pub struct Mutex<T: ?Sized> {
+    site: &'static Location<'static>,
+    inner: std::sync::Mutex<T>,
+}
+
+pub struct MutexGuard<'a, T: ?Sized + 'a> {
+    obj: usize,
+    site: &'static Location<'static>,
+    inner: Option<std::sync::MutexGuard<'a, T>>,
+}
+
+impl<T> Mutex<T> {
+    #[track_caller]
+    pub fn new(t: T) -> Mutex<T> {
+        Mutex { site: Location::caller(), inner: std::sync::Mutex::new(t) }
+    }
+    pub fn into_inner(self) -> LockResult<T> {
+        self.inner.into_inner()
+    }
+}
+
+impl<T: ?Sized> Mutex<T> {
+    fn id(&self) -> usize {
+        &self.inner as *const _ as *const () as usize
+    }
+    fn wrap<'a>(&'a self, g: std::sync::MutexGuard<'a, T>) -> MutexGuard<'a, T> {
+        MutexGuard { obj: self.id(), site: self.site, inner: Some(g) }
+    }
+    pub fn lock(&self) -> LockResult<MutexGuard<'_, T>> {
+        let h = before(Op::Lock, self.id(), Some(self.site));
+        let r = self.inner.lock();
+        if let Some(h) = h {
+            h.after(&Event { op: Op::Lock, obj: self.id(), site: Some(self.site) }, true);
+        }
+        match r {
+            Ok(g) => Ok(self.wrap(g)),
+            Err(p) => Err(PoisonError::new(self.wrap(p.into_inner()))),
+        }
+    }
+    pub fn try_lock(&self) -> TryLockResult<MutexGuard<'_, T>> {
+        let h = before(Op::TryLock, self.id(), Some(self.site));
+        let r = self.inner.try_lock();
+        let ok = !matches!(r, Err(TryLockError::WouldBlock));
+        if let Some(h) = h {
+            h.after(&Event { op: Op::TryLock, obj: self.id(), site: Some(self.site) }, ok);
+        }
+        match r {
+            Ok(g) => Ok(self.wrap(g)),
+            Err(TryLockError::Poisoned(p)) => Err(TryLockError::Poisoned(PoisonError::new(self.wrap(p.into_inner())))),
+            Err(TryLockError::WouldBlock) => Err(TryLockError::WouldBlock),
+        }
+    }
+    pub fn is_poisoned(&self) -> bool {
+        self.inner.is_poisoned()
+    }
+    pub fn get_mut(&mut self) -> LockResult<&mut T> {
+        self.inner.get_mut()
+    }
+}
+
+impl<T: ?Sized> Drop for MutexGuard<'_, T> {
+    fn drop(&mut self) {
+        drop(self.inner.take());
+        if let Some(h) = hook() {
+            h.after(&Event { op: Op::Unlock, obj: self.obj, site: Some(self.site) }, true);
+        }
+    }
+}
+impl<T: ?Sized> Deref for MutexGuard<'_, T> {
+    type Target = T;
+    fn deref(&self) -> &T {
+        self.inner.as_ref().unwrap()
+    }
+}
+impl<T: ?Sized> DerefMut for MutexGuard<'_, T> {
+    fn deref_mut(&mut self) -> &mut T {
+        self.inner.as_mut().unwrap()
+    }
+}
+impl<T: ?Sized + fmt::Debug> fmt::Debug for MutexGuard<'_, T> {
+    fn fmt(&self, f: &mut fmt::Formatter<'_>) -> fmt::Result {
+        fmt::Debug::fmt(&**self, f)
+    }
+}
+impl<T: ?Sized + fmt::Debug> fmt::Debug for Mutex<T> {
+    fn fmt(&self, f: &mut fmt::Formatter<'_>) -> fmt::Result {
+        fmt::Debug::fmt(&self.inner, f)
+    }
+}
+impl<T: Default> Default for Mutex<T> {
+    #[track_caller]
+    fn default() -> Mutex<T> {
+        Mutex::new(T::default())
+    }
+}
+impl<T> From<T> for Mutex<T> {
+    #[track_caller]
+    fn from(t: T) -> Self {
+        Mutex::new(t)
+    }
+}
+
+// ------------------------------------------------------------------------------------- RwLock
+pub struct RwLock<T: ?Sized> {
+    site: &'static Location<'static>,
+    inner: std::sync::RwLock<T>,
+}
+pub struct RwLockReadGuard<'a, T: ?Sized + 'a> {
+    obj: usize,
+    site: &'static Location<'static>,
+    inner: Option<std::sync::RwLockReadGuard<'a, T>>,
+}
+pub struct RwLockWriteGuard<'a, T: ?Sized + 'a> {
+    obj: usize,
+    site: &'static Location<'static>,
+    inner: Option<std::sync::RwLockWriteGuard<'a, T>>,
+}
+
+impl<T> RwLock<T> {
+    #[track_caller]
+    pub fn new(t: T) -> RwLock<T> {
+        RwLock { site: Location::caller(), inner: std::sync::RwLock::new(t) }
+    }
+    pub fn into_inner(self) -> LockResult<T> {
+        self.inner.into_inner()
+    }
+}
+
+impl<T: ?Sized> RwLock<T> {
+    fn id(&self) -> usize {
+        &self.inner as *const _ as *const () as usize
+    }
+    fn ev(&self, op: Op) -> Event {
+        Event { op, obj: self.id(), site: Some(self.site) }
+    }
+    pub fn read(&self) -> LockResult<RwLockReadGuard<'_, T>> {
+        let h = before(Op::Read, self.id(), Some(self.site));
+        let r = self.inner.read();
+        if let Some(h) = h {
+            h.after(&self.ev(Op::Read), true);
+        }
+        let (obj, site) = (self.id(), self.site);
+        match r {
+            Ok(g) => Ok(RwLockReadGuard { obj, site, inner: Some(g) }),
+            Err(p) => Err(PoisonError::new(RwLockReadGuard { obj, site, inner: Some(p.into_inner()) })),
+        }
+    }
+    pub fn write(&self) -> LockResult<RwLockWriteGuard<'_, T>> {
+        let h = before(Op::Write, self.id(), Some(self.site));
+        let r = self.inner.write();
+        if let Some(h) = h {
+            h.after(&self.ev(Op::Write), true);
+        }
+        let (obj, site) = (self.id(), self.site);
+        match r {
+            Ok(g) => Ok(RwLockWriteGuard { obj, site, inner: Some(g) }),
+            Err(p) => Err(PoisonError::new(RwLockWriteGuard { obj, site, inner: Some(p.into_inner()) })),
+        }
+    }
+    pub fn try_read(&self) -> TryLockResult<RwLockReadGuard<'_, T>> {
+        let h = before(Op::TryRead, self.id(), Some(self.site));
+        let r = self.inner.try_read();
+        let ok = !matches!(r, Err(TryLockError::WouldBlock));
+        if let Some(h) = h {
+            h.after(&self.ev(Op::TryRead), ok);
+        }
+        let (obj, site) = (self.id(), self.site);
+        match r {
+            Ok(g) => Ok(RwLockReadGuard { obj, site, inner: Some(g) }),
+            Err(TryLockError::Poisoned(p)) => {
+                Err(TryLockError::Poisoned(PoisonError::new(RwLockReadGuard { obj, site, inner: Some(p.into_inner()) })))
+            }
+            Err(TryLockError::WouldBlock) => Err(TryLockError::WouldBlock),
+        }
+    }
+    pub fn try_write(&self) -> TryLockResult<RwLockWriteGuard<'_, T>> {
+        let h = before(Op::TryWrite, self.id(), Some(self.site));
+        let r = self.inner.try_write();
+        let ok = !matches!(r, Err(TryLockError::WouldBlock));
+        if let Some(h) = h {
+            h.after(&self.ev(Op::TryWrite), ok);
+        }
+        let (obj, site) = (self.id(), self.site);
+        match r {
+            Ok(g) => Ok(RwLockWriteGuard { obj, site, inner: Some(g) }),
+            Err(TryLockError::Poisoned(p)) => {
+                Err(TryLockError::Poisoned(PoisonError::new(RwLockWriteGuard { obj, site, inner: Some(p.into_inner()) })))
+            }
+            Err(TryLockError::WouldBlock) => Err(TryLockError::WouldBlock),
+        }
+    }
+    pub fn is_poisoned(&self) -> bool {
+        self.inner.is_poisoned()
+    }
+    pub fn get_mut(&mut self) -> LockResult<&mut T> {
+        self.inner.get_mut()
+    }
+}
+
+impl<T: ?Sized> Drop for RwLockReadGuard<'_, T> {
+    fn drop(&mut self) {
+        drop(self.inner.take());
+        if let Some(h) = hook() {
+            h.after(&Event { op: Op::UnlockRead, obj: self.obj, site: Some(self.site) }, true);
+        }
+    }
+}
+impl<T: ?Sized> Drop for RwLockWriteGuard<'_, T> {
+    fn drop(&mut self) {
+        drop(self.inner.take());
+        if let Some(h) = hook() {
+            h.after(&Event { op: Op::Unlock, obj: self.obj, site: Some(self.site) }, true);
+        }
+    }
+}
+impl<T: ?Sized> Deref for RwLockReadGuard<'_, T> {
+    type Target = T;
+    fn deref(&self) -> &T {
+        self.inner.as_ref().unwrap()
+    }
+}
+impl<T: ?Sized> Deref for RwLockWriteGuard<'_, T> {
+    type Target = T;
+    fn deref(&self) -> &T {
+        self.inner.as_ref().unwrap()
+    }
+}
+impl<T: ?Sized> DerefMut for RwLockWriteGuard<'_, T> {
+    fn deref_mut(&mut self) -> &mut T {
+        self.inner.as_mut().unwrap()
+    }
+}
+impl<T: ?Sized + fmt::Debug> fmt::Debug for RwLockReadGuard<'_, T> {
+    fn fmt(&self, f: &mut fmt::Formatter<'_>) -> fmt::Result {
+        fmt::Debug::fmt(&**self, f)
+    }
+}
+impl<T: ?Sized + fmt::Debug> fmt::Debug for RwLockWriteGuard<'_, T> {
+    fn fmt(&self, f: &mut fmt::Formatter<'_>) -> fmt::Result {
+        fmt::Debug::fmt(&**self, f)
+    }
+}
+impl<T: ?Sized + fmt::Debug> fmt::Debug for RwLock<T> {
+    fn fmt(&self, f: &mut fmt::Formatter<'_>) -> fmt::Result {
+        fmt::Debug::fmt(&self.inner, f)
+    }
+}
+impl<T: Default> Default for RwLock<T> {
+    #[track_caller]
+    fn default() -> RwLock<T> {
+        RwLock::new(T::default())
+    }
+}
+impl<T> From<T> for RwLock<T> {
+    #[track_caller]
+    fn from(t: T) -> Self {
+        RwLock::new(t)
+    }
+}
+
+// ------------------------------------------------------------------------------------- atomics
+pub mod atomic {
+    use super::{before, Event, Op};
+    pub use std::sync::atomic::Ordering;
+    use std::fmt;
+
+    macro_rules! atomic_int {
+        ($name:ident, $std:ty, $int:ty) => {
+            #[derive(Default)]
+            pub struct $name {
+                inner: $std,
+            }
+            impl $name {
+                pub const fn new(v: $int) -> Self {
+                    Self { inner: <$std>::new(v) }
+                }
+                #[inline]
+                fn id(&self) -> usize {
+                    &self.inner as *const _ as usize
+                }
+                #[inline]
+                fn around<R>(&self, op: Op, f: impl FnOnce() -> R) -> R {
+                    let h = before(op, self.id(), None);
+                    let r = f();
+                    if let Some(h) = h {
+                        h.after(&Event { op, obj: self.id(), site: None }, true);
+                    }
+                    r
+                }
+                pub fn load(&self, o: Ordering) -> $int {
+                    self.around(Op::AtomicLoad, || self.inner.load(o))
+                }
+                pub fn store(&self, v: $int, o: Ordering) {
+                    self.around(Op::AtomicStore, || self.inner.store(v, o))
+                }
+                pub fn swap(&self, v: $int, o: Ordering) -> $int {
+                    self.around(Op::AtomicRmw, || self.inner.swap(v, o))
+                }
+                pub fn fetch_add(&self, v: $int, o: Ordering) -> $int {
+                    self.around(Op::AtomicRmw, || self.inner.fetch_add(v, o))
+                }
+                pub fn fetch_sub(&self, v: $int, o: Ordering) -> $int {
+                    self.around(Op::AtomicRmw, || self.inner.fetch_sub(v, o))
+                }
+                pub fn fetch_max(&self, v: $int, o: Ordering) -> $int {
+                    self.around(Op::AtomicRmw, || self.inner.fetch_max(v, o))
+                }
+                pub fn fetch_min(&self, v: $int, o: Ordering) -> $int {
+                    self.around(Op::AtomicRmw, || self.inner.fetch_min(v, o))
+                }
+                pub fn fetch_and(&self, v: $int, o: Ordering) -> $int {
+                    self.around(Op::AtomicRmw, || self.inner.fetch_and(v, o))
+                }
+                pub fn fetch_or(&self, v: $int, o: Ordering) -> $int {
+                    self.around(Op::AtomicRmw, || self.inner.fetch_or(v, o))
+                }
+                pub fn compare_exchange(&self, c: $int, n: $int, s: Ordering, f: Ordering) -> Result<$int, $int> {
+                    self.around(Op::AtomicRmw, || self.inner.compare_exchange(c, n, s, f))
+                }
+                pub fn compare_exchange_weak(&self, c: $int, n: $int, s: Ordering, f: Ordering) -> Result<$int, $int> {
+                    // deterministic under the scheduler: no spurious failure
+                    self.around(Op::AtomicRmw, || self.inner.compare_exchange(c, n, s, f))
+                }
+                pub fn fetch_update<F: FnMut($int) -> Option<$int>>(&self, s: Ordering, f: Ordering, g: F) -> Result<$int, $int> {
+                    self.around(Op::AtomicRmw, || self.inner.fetch_update(s, f, g))
+                }
+                pub fn get_mut(&mut self) -> &mut $int {
+                    self.inner.get_mut()
+                }
+                pub fn into_inner(self) -> $int {
+                    self.inner.into_inner()
+                }
+            }
+            impl fmt::Debug for $name {
+                fn fmt(&self, f: &mut fmt::Formatter<'_>) -> fmt::Result {
+                    fmt::Debug::fmt(&self.inner, f)
+                }
+            }
+            impl From<$int> for $name {
+                fn from(v: $int) -> Self {
+                    Self::new(v)
+                }
+            }
+        };
+    }
+    atomic_int!(AtomicU64, std::sync::atomic::AtomicU64, u64);
+    atomic_int!(AtomicU32, std::sync::atomic::AtomicU32, u32);
+    atomic_int!(AtomicI64, std::sync::atomic::AtomicI64, i64);
+    atomic_int!(AtomicUsize, std::sync::atomic::AtomicUsize, usize);
+}
